@@ -141,9 +141,18 @@ def make_spec(rng, steps, spelling):
         return t
     parts = [part(s, a) for s, a in steps]
     if spelling == 'nested' and len(parts) >= 2:
+        # a Path nested in a Path, in first, last or middle position (its T steps keep their access style)
         cut = rng.randint(1, len(parts) - 1)
+        form = rng.choice(['first', 'last', 'middle', 'both'])
         try:
-            return Path(Path(*parts[:cut]), *parts[cut:])
+            if form == 'first':
+                return Path(Path(*parts[:cut]), *parts[cut:])
+            if form == 'last':
+                return Path(*(parts[:cut] + [Path(*parts[cut:])]))
+            if form == 'both':
+                return Path(Path(*parts[:cut]), Path(*parts[cut:]))
+            cut2 = rng.randint(cut, len(parts))
+            return Path(*(parts[:cut] + [Path(*parts[cut:cut2])] + parts[cut2:]))
         except Exception:
             return Path(*parts)
     return Path(*parts)
@@ -276,8 +285,10 @@ def spell(rng, segs, nodes, spelling, path_only):
     """spell raw segments; returns list of (style, arg) or None"""
     steps = []
     for seg, node in zip(segs, nodes):
-        if spelling in ('string', 'path', 'nested'):
+        if spelling in ('string', 'path'):
             mode = 'P'
+        elif spelling == 'nested':
+            mode = rng.choice(['P', 'P', 'T'])
         elif spelling == 'T':
             mode = 'T'
         else:
